@@ -47,6 +47,9 @@ def scenario(big: bool = False) -> Any:
         "msgs": st.lists(msg, min_size=1, max_size=14 if big else 8),
         "stop": cm.times(), "has_stop": st.sampled_from([False, False, True]),
         "fail_saves": st.sets(st.integers(0, 13 if big else 7), max_size=3),
+        # persistent failures: the result of these messages can never be saved, whatever is retried; and what the backend raises
+        "fail_save_ids": st.one_of(st.just([]), st.just([]), st.lists(st.integers(0, 5), max_size=2, unique=True).map(sorted)),
+        "save_exc": st.sampled_from(["RuntimeError", "RuntimeError", "ConnectionError", "TimeoutError", "OSError", "ConnectionResetError", "ValueError"]),
         "save_latency": st.sampled_from([0.0, 0.0, 0.05, 0.3]),
     }).map(fin)
 
@@ -190,3 +193,158 @@ def run_case(case: Dict[str, Any]) -> Outcome:  # type: ignore[no-redef]
     out.nontrivial = any(case["flags"].get(k) not in (None, False) for k in case["flags"])
     out.classes = ["cli_wiring"]
     return out
+
+
+# ---------------------------------------------------------------- sync functions in a REAL thread pool across a shutdown
+#
+# A sync task function running in the worker's thread pool cannot be interrupted.  When shutdown is requested and
+# wait_tasks_timeout expires while it still runs, listen() returns - but the message must stay un-acknowledged until the
+# function has really finished (when_executed / when_saved).  The function blocks on a gate the harness opens only after
+# listen() has returned, so the verdict depends on the ORDER of events, never on a wall-clock threshold (the configured
+# timeout itself is 20-50 real milliseconds).
+
+
+def pool_shutdown_cases() -> Any:
+    return st.fixed_dictionaries({
+        "pool_shutdown": st.just(True), "ack_type": st.sampled_from(["when_received", "when_executed", "when_executed", "when_saved", "when_saved"]),
+        "W": st.sampled_from([0.0, 0.02, 0.05]), "n": st.integers(1, 2), "ack": st.sampled_from(["sync", "async"]),
+    })
+
+
+def run_pool_shutdown(c: Dict[str, Any]) -> Outcome:
+    import asyncio
+    import threading
+    from concurrent.futures import ThreadPoolExecutor
+
+    from taskiq import AckableMessage, AsyncBroker
+    from taskiq.acks import AcknowledgeType
+    from taskiq.brokers.inmemory_broker import InmemoryResultBackend
+    from taskiq.kicker import AsyncKicker
+    from taskiq.receiver import Receiver
+
+    out = Outcome()
+    out.clauses_checked = ["C02.a", "C02.b"]
+    n = c["n"]
+    events: List[Any] = []
+    gate = threading.Event()
+    info: Dict[str, Any] = {}
+
+    class QB(AsyncBroker):
+        def __init__(self) -> None:
+            super().__init__()
+            self.q: Any = None
+
+        async def kick(self, m: Any) -> None:
+            return None
+
+        async def listen(self):  # type: ignore[override]
+            while True:
+                yield await self.q.get()
+
+    async def main() -> None:
+        ex = ThreadPoolExecutor(max_workers=n + 1)
+        try:
+            b = QB()
+            b.q = asyncio.Queue()
+            b.result_backend = InmemoryResultBackend()
+            b.is_worker_process = True
+
+            def stask(k: int) -> int:
+                events.append(("enter", k))
+                gate.wait(20)
+                events.append(("exit", k))
+                return k
+
+            stask.__module__ = __name__
+            b.register_task(stask, task_name="pool.blocking")
+            # one slot more than messages: a saturated worker does not notice the timeout at all (open finding C05-saturated-wait-timeout)
+            r = Receiver(b, executor=ex, max_async_tasks=n + 1, run_startup=False, ack_type=AcknowledgeType(c["ack_type"]), wait_tasks_timeout=c["W"])
+            finish = asyncio.Event()
+            lt = asyncio.ensure_future(r.listen(finish))
+            for k in range(n):
+                data = b.formatter.dumps(AsyncKicker("pool.blocking", b, {}).with_task_id(f"id{k}")._prepare_message(k)).message
+                if c["ack"] == "sync":
+                    def ack(k: int = k) -> None:
+                        events.append(("ack", k))
+                else:
+                    async def ack(k: int = k) -> None:  # type: ignore[misc]
+                        events.append(("ack", k))
+                b.q.put_nowait(AckableMessage(data=data, ack=ack))
+            for _ in range(20000):
+                if sum(1 for e in events if e[0] == "enter") >= n:
+                    break
+                await asyncio.sleep(0.0005)
+            else:
+                info["skip"] = "functions did not start"
+                return
+            finish.set()
+            try:
+                await asyncio.wait_for(asyncio.shield(lt), 15)
+                info["returned"] = True
+            except asyncio.TimeoutError:
+                info["returned"] = False         # whether listen() returns is C05's question; the ack order below is still judged
+            for _ in range(5):
+                await asyncio.sleep(0)
+            events.append(("release", None))
+            gate.set()
+            for _ in range(200):
+                if sum(1 for e in events if e[0] == "ack") >= n and sum(1 for e in events if e[0] == "exit") >= n:
+                    break
+                await asyncio.get_running_loop().run_in_executor(ex, int)
+                await asyncio.sleep(0.001)
+            if not lt.done():
+                lt.cancel()
+            try:
+                await lt
+            except BaseException:  # noqa: BLE001
+                pass
+        finally:
+            gate.set()
+            ex.shutdown(wait=True)
+
+    loop = asyncio.new_event_loop()
+    loop.set_exception_handler(lambda l, ctx: None)
+    try:
+        loop.run_until_complete(main())
+        pend = [t for t in asyncio.all_tasks(loop) if not t.done()]
+        for t in pend:
+            t.cancel()
+        if pend:
+            loop.run_until_complete(asyncio.gather(*pend, return_exceptions=True))
+    finally:
+        loop.close()
+    ev = list(events)
+    if info.get("skip"):
+        out.classes = ["pool_shutdown", "skipped"]
+        out.counters = {"skipped": 1}
+        return out
+    for k in range(n):
+        mine = [e[0] for e in ev if e[1] == k or e[0] == "release"]
+        nack = mine.count("ack")
+        if nack > 1:
+            out.add("C02.a", f"message {k} acknowledged {nack} times; events={mine}")
+        if not nack:
+            continue        # never acknowledged within the run: allowed here (redelivery), exactly-once under normal operation is the main part's clause
+        ia = mine.index("ack")
+        if c["ack_type"] == "when_received":
+            continue        # acknowledged before the function started; nothing more to order here
+        if "exit" not in mine or ia < mine.index("exit"):
+            out.add("C02.b", f"{c['ack_type']}: message {k} was acknowledged while its sync task function was still running in the thread pool "
+                             f"(shutdown requested, wait_tasks_timeout={c['W']} expired); events={mine} - a worker exit now loses the message")
+    out.nontrivial = c["ack_type"] != "when_received"
+    out.classes = ["pool_shutdown", "ack_type=" + c["ack_type"], "listen_returned" if info.get("returned") else "listen_still_running"]
+    out.trace = {"events": [list(e) for e in ev][:20]}
+    return out
+
+
+_parts_core2 = parts
+_run_core2 = run_case
+
+
+def parts(tier: str) -> List[Part]:  # type: ignore[no-redef]
+    return _parts_core2(tier) + [Part("pool_shutdown", "given", shards=4, examples=400 if tier == "thorough" else 25,
+                                      strategy=pool_shutdown_cases, soft_deadline_s=900 if tier == "thorough" else 100)]
+
+
+def run_case(case: Dict[str, Any]) -> Outcome:  # type: ignore[no-redef]
+    return run_pool_shutdown(case) if case.get("pool_shutdown") else _run_core2(case)
